@@ -2516,6 +2516,12 @@ class PyCdlib:
                 raise pycdlibexception.PyCdlibInvalidInput('Symlinks have no data associated with them')
 
         if self.eltorito_boot_catalog is not None:
+            # The contents of the Boot Catalog and of a Boot Info Table depend
+            # on where things are located on the ISO, so make sure that the
+            # extents are up-to-date.
+            if self._needs_reshuffle:
+                self._reshuffle_extents()
+
             for rec in self.eltorito_boot_catalog.dirrecords:
                 if isinstance(rec, udfmod.UDFFileEntry):
                     continue
